@@ -463,6 +463,12 @@ example : (serialize C17_exTree' none).toOption.map (fun d => Legacy.deserialize
     = some (.ok (legacyTree C17_exTree' 1417653911 "Client".toList
         (.mk "Client".toList "Client".toList "Client".toList "Client".toList "variant".toList
           [("packages".toList, "Client/Packages".toList), ("repository".toList, "Client".toList)] []))) := by decide +kernel
+/-- …and through the bytes (the conclusion of `C17_legacy_reader_partial` itself) -/
+example : ((dumps C17_exTree' none).toOption.bind fun text => (IniParse.parse Str.isPySpace text).toOption.map fun d' =>
+      Legacy.deserialize intOracle (compatDoc d'))
+    = some (.ok (legacyTree C17_exTree' 1417653911 "Client".toList
+        (.mk "Client".toList "Client".toList "Client".toList "Client".toList "variant".toList
+          [("packages".toList, "Client/Packages".toList), ("repository".toList, "Client".toList)] []))) := by decide +kernel
 example : LegacyOK C17_exTree' "Client".toList :=
   ⟨by decide, by decide, by decide +kernel, by decide +kernel, by simp [C17_exTree']⟩
 example : (legacyTree C17_exTree' 1417653911 "Client".toList
